@@ -60,7 +60,11 @@ class _ForeignIntEnum(_enum.IntEnum):
 NON_MEMBERS = [1, 2, "EMV", "VISA", 2.0, b"\x02", sm.EncryptionType.EMV, sm.EncryptionType.VISA, ac.PaddingType.EMV,
                ac.PaddingType.VISA, object(), _ForeignEnum.EMV, _ForeignEnum.VISA, _ForeignEnum.MASTERCARD,
                _ForeignIntEnum.EMV, _ForeignIntEnum.VISA, _types.SimpleNamespace(name="EMV", value=2),
-               _types.SimpleNamespace(name="VISA", value=1), _pathlib.PurePosixPath("keys/EMV"), True, [], {}]
+               _types.SimpleNamespace(name="VISA", value=1), _pathlib.PurePosixPath("keys/EMV"), True, [], {},
+               b"EMV", bytearray(b"VISA"), (), (1, 2), (2,), frozenset(), 0, -1, 3, MaskedStr("EMV")]
+# values that are not MAC padding methods (C15: anything but 1 or 2 is refused with ValueError)
+# (bytes objects are left out: comparing them with 1 is itself an error under `python -bb`, whatever the code does)
+BAD_PADDINGS = [0, 3, -1, 8, None, "1", "2", (), (1, 2), (2, 8), (1,), [1], [2], {}, 1.5, object(), True + 2]
 WEAK_KEYS = [bytes.fromhex(k) for k in (
     "0101010101010101", "FEFEFEFEFEFEFEFE", "E0E0E0E0F1F1F1F1", "1F1F1F1F0E0E0E0E",
     "011F011F010E010E", "1F011F010E010E01")]
@@ -541,6 +545,8 @@ def rare_pairs(rng, want, letters_needed=True):
 
 def gen_tag(R, constructed=None, maxlen=5):
     n = R.choice([1, 1, 1, 2, 2, 3, 4, maxlen])
+    if R.random() < .012:                                # very long tag names: around the 127/128 and 255/256/257 marks
+        n = R.choice([64, 127, 128, 129, 255, 256, 257, 258, 300, 1000])
     cls = R.choice([0x00, 0x40, 0x80, 0xC0])
     c = (0x20 if constructed else 0x00) if constructed is not None else R.choice([0, 0x20])
     if n == 1:
